@@ -184,6 +184,8 @@ class ExprMixin:
                         "VALUE_SAME_CHECK", "_key_type", "_value_type"):
                 return [(s, self.class_attr(s, obj, name))]
             return [(s, SV("bmeth", None, (obj, name)))]
+        if obj.kind == "any" and name in ("_mapping_type", "_set_type"):
+            return [(s, SV("cls", None, "Bucket" if name == "_mapping_type" else "Set"))]
         if obj.kind == "cls" and name in ("max_leaf_size", "max_internal_size"):
             return [(s, mk_int(z3.Int("C_" + name)))]
         if obj.kind in ("list", "tuple", "cls", "func"):
@@ -371,6 +373,8 @@ class ExprMixin:
                 if z3.is_int_value(bv) and bv.as_long() > 0:
                     return SV(kind, az / bz)     # z3 Int '/' is floor for b > 0
                 raise Unsupported("floor division by non-constant")
+        if a.kind == "str" and isinstance(op, ast.Mod):
+            return SV("str", None, a.x)          # message formatting: the text is irrelevant
         if a.kind == "tuple" and b.kind == "tuple" and isinstance(op, ast.Add):
             return SV("tuple", None, a.x + b.x)
         raise Unsupported("binop %s on %s,%s" % (type(op).__name__, a.kind, b.kind))
@@ -420,6 +424,15 @@ class ExprMixin:
             return a.z == b.z
         if ka == "str" and kb == "str":
             return z3.BoolVal(a.x == b.x)
+        if ka == "tuple" and kb == "tuple":
+            if a is b or a.x is b.x:
+                return z3.BoolVal(True)
+            if len(a.x) != len(b.x):
+                return z3.BoolVal(False)
+            parts = [self.same(s, x, y) for x, y in zip(a.x, b.x)]
+            if any(p is None for p in parts):
+                return z3.BoolVal(False)
+            return z3.And(*parts) if parts else z3.BoolVal(True)
         return None
 
     def compare(self, s, op, a, b):
